@@ -255,3 +255,27 @@ Proof.
     specialize (Ht c Hc). apply negb_true_iff in Ht. exact Ht.
   - intros d ->. apply (join_split d input []).
 Qed.
+
+(* ---- a long-lived DmxBuffer: SetFromString's frame depends on the text only ------------------------------- *)
+Lemma firstn_overwrite old new : firstn (length new) (overwrite old new) = new.
+Proof. unfold overwrite. rewrite firstn_app, Nat.sub_diag, firstn_all. cbn. apply app_nil_r. Qed.
+Lemma overwrite_length old new : (length new <= length old)%nat -> length (overwrite old new) = length old.
+Proof. intros H. unfold overwrite. rewrite app_length, skipn_length. lia. Qed.
+
+Lemma dmx_text_step_frame o input : dmx_frame (dmx_step o (OpText input)) = dmx_set_from_string input.
+Proof.
+  destruct o as [block len]. unfold dmx_step, dmx_set_from_string. destruct (is_empty input).
+  - reflexivity.
+  - unfold dmx_frame. cbn [fst snd]. apply firstn_overwrite.
+Qed.
+Lemma dmx_step_block_length o op : length (fst o) = DMX_UNIVERSE_SIZE -> length (fst (dmx_step o op)) = DMX_UNIVERSE_SIZE.
+Proof.
+  destruct o as [block len]. cbn [fst]. intros H. destruct op as [input|data|v n]; cbn [dmx_step].
+  - destruct (is_empty input); cbn [fst]; [exact H|]. rewrite overwrite_length; [exact H|].
+    rewrite map_length, firstn_length. lia.
+  - cbn [fst]. rewrite overwrite_length; [exact H|]. rewrite firstn_length. lia.
+  - cbn [fst]. rewrite overwrite_length; [exact H|]. rewrite repeat_length. lia.
+Qed.
+Lemma dmx_history ops input :
+  dmx_frame (dmx_run (ops ++ [OpText input])) = dmx_set_from_string input.
+Proof. unfold dmx_run. rewrite fold_left_app. cbn [fold_left]. apply dmx_text_step_frame. Qed.
